@@ -105,7 +105,7 @@ func exprItems(thorough bool) []item {
 			// thorough: every inner production in the reduced position set and the
 			// representative ones everywhere
 			if thorough {
-				if !pos.quick && !rep[e.parts[1]] {
+				if !pos.quick && !(rep[e.parts[1]] && pos.class != "statement") {
 					continue
 				}
 			} else if !pos.quick || !rep[e.parts[1]] {
@@ -113,7 +113,8 @@ func exprItems(thorough bool) []item {
 			}
 
 			for _, frag := range []bool{false, true} {
-				if frag && !(thorough && pos.quick) {
+				// the expression printer does not depend on the file form: depth 2 as programs only
+				if frag {
 					continue
 				}
 
@@ -209,7 +210,7 @@ func stmtItems(thorough bool) []item {
 				both := rep[f1.name] && rep[f2.name]
 
 				if thorough {
-					if !ctx.quick && !both {
+					if !(ctx.name == "body" || ctx.name == "case-first") && !both {
 						continue
 					}
 				} else if !ctx.quick || !both {
@@ -219,7 +220,7 @@ func stmtItems(thorough bool) []item {
 				for _, frag := range []bool{false, true} {
 					// statements at the top level of a file follow their own layout rules:
 					// the fragment form matters most for the outermost context
-					if frag && !(ctx.name == "body" || thorough && both) {
+					if frag && ctx.name != "body" {
 						continue
 					}
 
@@ -308,7 +309,7 @@ func commentItems(thorough bool) []item {
 
 	window := 1
 	if thorough {
-		window = 4
+		window = 3
 	}
 
 	for _, bp := range basePrograms {
